@@ -327,13 +327,23 @@ def run_model(group, lines, timeout=1800):
 
 # ------------------------------------------------------------------ C harness
 
+_CC_OUTPUTS = []
+
+
 def cc(name, sources, flags="", compiler="gcc", sanitize=True, timeout=300):
     """compile a harness into work/c/<name>; always rebuilt from the current tree. Returns (ok, path, log)"""
     d = os.path.join(WORK, "c")
     os.makedirs(d, exist_ok=True)
-    out = os.path.join(d, name)
+    # one binary per checking process: several properties share harness names (the trx_if.c harness serves C04 C05 C14 C20) and
+    # their checks may run at the same time - a check must never find its binary removed or half written by another one
+    out = os.path.join(d, "%s.%d" % (name, os.getpid()))
     if os.path.exists(out):
         os.unlink(out)
+    if out not in _CC_OUTPUTS:
+        _CC_OUTPUTS.append(out)
+        if len(_CC_OUTPUTS) == 1:
+            import atexit
+            atexit.register(lambda: [os.path.exists(f) and os.unlink(f) for f in _CC_OUTPUTS])
     san = "-fsanitize=address,undefined -fno-sanitize-recover=undefined -fno-omit-frame-pointer" if sanitize else ""
     cmd = "%s -g -O1 -w %s %s -o %s %s" % (compiler, san, flags, out, " ".join(sources))
     rc, log = sh(cmd, timeout=timeout)
